@@ -26,9 +26,10 @@ pub enum TCase {
 
 pub fn class_key(t: &TCase) -> String {
     match t {
-        TCase::TsDur { minus, .. } => format!("Interval::apply_operator/{}/timestamp-duration", if *minus { "Minus" } else { "Plus" }),
+        TCase::TsDur { minus: true, .. } | TCase::TsIdt { minus: true, .. } => "Interval::apply_operator/Minus/timestamp-with-duration-or-daytime".into(),
+        TCase::TsDur { .. } => "Interval::apply_operator/Plus/timestamp-duration".into(),
         TCase::TsTs { .. } => "Interval::apply_operator/Minus/timestamp-timestamp".into(),
-        TCase::TsIdt { minus, .. } => format!("Interval::apply_operator/{}/timestamp-daytime", if *minus { "Minus" } else { "Plus" }),
+        TCase::TsIdt { .. } => "Interval::apply_operator/Plus/timestamp-daytime".into(),
         TCase::PropTsIdt { minus, .. } => format!("propagate_arithmetic/{}/timestamp-daytime", if *minus { "Minus" } else { "Plus" }),
     }
 }
@@ -75,7 +76,8 @@ fn members(iv: &I) -> Vec<i64> {
 }
 
 /// (normalised members, non-normalised members) of a day-time range in the
-/// engine's (days, ms) lexicographic order. Normalised = |ms| < one day.
+/// engine's (days, ms) lexicographic order. Normalised = |ms| < one day and no
+/// mixed signs (on those the lexicographic order agrees with the duration).
 fn idt_members(iv: &IDT) -> (Vec<DT>, Vec<DT>) {
     let mut c: Vec<DT> = vec![];
     for d in [-2, -1, 0, 1, 2, i32::MIN, i32::MAX] {
@@ -94,7 +96,14 @@ fn idt_members(iv: &IDT) -> (Vec<DT>, Vec<DT>) {
     c.retain(|v| iv.0.map_or(true, |l| l <= *v) && iv.1.map_or(true, |h| *v <= h));
     c.sort();
     c.dedup();
-    c.into_iter().partition(|v| (v.1 as i128).abs() < DAY)
+    // normalised: less than a day of milliseconds, with the sign of the day part
+    c.into_iter().partition(|v| (v.1 as i128).abs() < DAY && (v.0 == 0 || v.1 == 0 || (v.0 > 0) == (v.1 > 0)))
+}
+/// Timestamp ± day-time interval goes through calendar arithmetic in the
+/// engine, which only works inside chrono's date range (about ±262 000 years);
+/// outside of it the engine's operator itself fails, so there is no demand.
+fn chrono_safe(v: i128) -> bool {
+    v.abs() <= 4_000_000_000_000_000
 }
 fn idt_ms(v: DT) -> i128 {
     v.0 as i128 * DAY + v.1 as i128
@@ -154,9 +163,12 @@ pub fn run(t: &TCase) -> Result<Stat, String> {
             st.claim = !res.lower().is_null() || !res.upper().is_null();
             let (norm, denorm) = idt_members(b);
             for x in members(a) {
+                if !chrono_safe(x as i128) {
+                    continue;
+                }
                 for y in &norm {
                     let v = if *minus { x as i128 - idt_ms(*y) } else { x as i128 + idt_ms(*y) };
-                    if !fits(v) {
+                    if !chrono_safe(v) {
                         continue;
                     }
                     st.checks += 1;
@@ -166,7 +178,7 @@ pub fn run(t: &TCase) -> Result<Stat, String> {
                 }
                 for y in &denorm {
                     let v = if *minus { x as i128 - idt_ms(*y) } else { x as i128 + idt_ms(*y) };
-                    if fits(v) && !within(&res, v)? {
+                    if chrono_safe(v) && !within(&res, v)? {
                         st.zero_gap += 1; // reported as an observation counter, see `temporal.non_normalised…`
                     }
                 }
@@ -185,9 +197,12 @@ pub fn run(t: &TCase) -> Result<Stat, String> {
             };
             let (norm, _) = idt_members(b);
             for x in members(a) {
+                if !chrono_safe(x as i128) {
+                    continue;
+                }
                 for y in &norm {
                     let v = if *minus { x as i128 - idt_ms(*y) } else { x as i128 + idt_ms(*y) };
-                    if !fits(v) || !(parent.0.map_or(true, |l| l as i128 <= v) && parent.1.map_or(true, |h| v <= h as i128)) {
+                    if !chrono_safe(v) || !(parent.0.map_or(true, |l| l as i128 <= v) && parent.1.map_or(true, |h| v <= h as i128)) {
                         continue;
                     }
                     st.checks += 1;
